@@ -51,6 +51,7 @@ func main() {
 	if *tier != "thorough" {
 		*tier = "quick"
 	}
+	monitor.StartJitterProbe()
 	r := monitor.NewRun(id, *tier, *seed)
 	if e.level != "" {
 		r.Level = e.level
